@@ -22,7 +22,10 @@ package main
 //	                                 r = registered with a pending retirement (still holds its deposit)
 //	       c:reg:<amt> | c:unreg:<amt>:<recorded> | c:srd:<amt> | c:vrd:<amt> | c:svrd:<amt>
 //	       c:dreg:<amt> | c:dunreg:<amt>:<recorded> | c:vdeleg      (Conway+)
-//	out: decode-err | pure=<1|0> vc=<ok|vnc|baddep> bad=<0|1> dep=<0|1>
+//	out: decode-err | pure=<1|0> next=<ok|vnc|bad|countN|-> vc=<ok|vnc|baddep> bad=<0|1> dep=<0|1>
+//	     next = verdict of a follow-up transaction that spends everything Produced() reports into
+//	            outputs carrying the values the op states (ok = balanced, all inputs resolve;
+//	            - = nothing is produced)
 //	     pure = 1 iff validating the same decoded transaction a second time gives the same
 //	            verdicts and the transaction's and the state's reported values (outputs,
 //	            Produced(), stored bytes, mint, UTxOs) are unchanged by validation
@@ -436,7 +439,8 @@ func runC27(op string) string {
 	}
 	ins, outs, certs, props, colls := [][]byte{}, [][]byte{}, [][]byte{}, [][]byte{}, [][]byte{}
 	var mintB []c27Entry
-	var collRet []byte
+	var collRet, collRetVal []byte
+	outVals := [][]byte{} // the value of each output exactly as the op states it
 	var totalColl *uint64
 	wkv := [][]byte{}
 	utxos := []common.Utxo{}
@@ -499,6 +503,7 @@ func runC27(op string) string {
 				return "bad-op"
 			}
 			collRet = cbArray(cbBytes(g1Addr(7)), cbUint(num(1)))
+			collRetVal = val(num(1), nil)
 		case "kt":
 			if ei < 4 {
 				return "bad-op"
@@ -519,6 +524,7 @@ func runC27(op string) string {
 				}
 			}
 			outs = append(outs, cbArray(cbBytes(g1Addr(7)), val(num(1), b)))
+			outVals = append(outVals, val(num(1), b))
 		case "m":
 			b, ok := c27ParseBundle(p[1])
 			if !ok || ei < 2 || mintB != nil {
@@ -619,7 +625,8 @@ func runC27(op string) string {
 	if don > 0 {
 		kv = append(kv, cbUint(22), cbUint(don))
 	}
-	raw := g1Envelope(era, cbMap(kv...), cbMap(), valid, nil, 0, 0)
+	bodyBytes := cbMap(kv...)
+	raw := g1Envelope(era, bodyBytes, cbMap(), valid, nil, 0, 0)
 	tx, derr := g1DecodeTx(era, raw)
 	if derr != nil {
 		return "decode-err"
@@ -679,7 +686,70 @@ func runC27(op string) string {
 		pure = 0
 	}
 	_ = conway.UtxoValidationRules
-	return fmt.Sprintf("pure=%d %s", pure, v1)
+	// Follow-up transaction: the UTxO objects the (validated) transaction reports as
+	// Produced() are put into a fresh ledger state and ALL spent by a second transaction of
+	// the same era whose outputs carry exactly the values the op states (valid: one per
+	// output, in order; phase-2-invalid: the collateral return at index |outputs|). Its
+	// inputs are addressed by the transaction id computed here from the body bytes, so the
+	// produced ids must be (blake2b256(body), index). The second transaction balances iff
+	// what was produced is exactly the outputs.
+	next := "-"
+	expVals := outVals
+	firstIdx := 0
+	if !valid {
+		expVals = nil
+		if collRetVal != nil {
+			expVals = [][]byte{collRetVal}
+			firstIdx = len(outVals)
+		}
+	}
+	if len(expVals) > 0 {
+		txid := common.Blake2b256Hash(bodyBytes).Bytes()
+		ins2, outs2 := [][]byte{}, [][]byte{}
+		for i, v := range expVals {
+			ins2 = append(ins2, cbArray(cbBytes(txid), cbUint(uint64(firstIdx+i))))
+			outs2 = append(outs2, cbArray(cbBytes(g1Addr(9)), v))
+		}
+		body2 := cbMap(cbUint(0), cbArray(ins2...), cbUint(1), cbArray(outs2...), cbUint(2), cbUint(0), cbUint(3), cbUint(1000))
+		tx2, derr2 := g1DecodeTx(era, g1Envelope(era, body2, cbMap(), true, nil, 0, 0))
+		if derr2 != nil {
+			next = "decode-err"
+		} else {
+			var produced []common.Utxo
+			func() {
+				defer func() {
+					if e := recover(); e != nil {
+						next = "panic"
+					}
+				}()
+				produced = tx.Produced()
+			}()
+			ls2 := mockledger.NewLedgerStateBuilder().WithUtxos(produced).WithNetworkId(1).Build()
+			if next != "panic" {
+				next = "ok"
+				for _, rule := range g1Rules(era) {
+					e := safeRule(rule, tx2, 10, ls2, pp)
+					if e == nil {
+						continue
+					}
+					var e1 shelley.ValueNotConservedUtxoError
+					var e3 shelley.BadInputsUtxoError
+					switch {
+					case errors.As(e, &e3):
+						next = "bad"
+					case errors.As(e, &e1):
+						if next == "ok" {
+							next = "vnc"
+						}
+					}
+				}
+				if len(produced) != len(expVals) {
+					next = fmt.Sprintf("count%d", len(produced))
+				}
+			}
+		}
+	}
+	return fmt.Sprintf("pure=%d next=%s %s", pure, next, v1)
 }
 
 // c27IsIncorrectDeposit recognises conway.IncorrectCertificateDepositError by type name,
